@@ -390,7 +390,7 @@ def _apply_extras(ot, drops, where, extra, loc):
 class Fn:
   def __init__(self, file, name, impl=None, emit_impl=None, ret="r", requires=(), ensures=(),
                loops=None, hints=(), extra=(), nth=0, sig_sub=(), contract_only=False, prefix="",
-               decreases=None, attrs=(), probe=True, rename=None, recommends=(), safety_props=None, mut_params=()):
+               decreases=None, attrs=(), probe=True, rename=None, recommends=(), safety_props=None, mut_params=(), await_inv=()):
     self.file, self.name, self.impl = file, name, impl
     self.emit_impl = emit_impl  # e.g. "impl ZmtpManualParser" ; None => free fn
     self.ret = ret
@@ -408,6 +408,7 @@ class Fn:
     self.rename = rename
     self.recommends = list(recommends)
     self.safety_props = list(safety_props) if safety_props else None
+    self.await_inv = list(await_inv)    # R11: [(name, text)] asserted in a proof block right before every `.await` of the body
     self.mut_params = list(mut_params)  # R5: `mut x: T` by-value params -> `x: T` + `let mut x = x;` (so `x` in ensures is the argument)
     self.contract_only = contract_only  # callee proved in another unit: signature + contract only (external_body)
     if contract_only:
@@ -758,6 +759,45 @@ def extract_fn(gen, f, probe=False):
   if not f.contract_only:
     for mp in f.mut_params:
       add_op(1, 1, "\n    let mut %s__m = %s;\n" % (mp, mp), sigline)
+  # ---- R11 await-point assertions: `EXPR.await` -> `{ proof { assert(INV); } EXPR.await }` for every await of the body (a future can be
+  #      dropped exactly at the points where it returned Pending, i.e. at an await)
+  if f.await_inv and not f.contract_only:
+    n_aw = 0
+    for am in re.finditer(r"\.await\b", mask):
+      k = am.start()
+      # walk back over the postfix chain: identifiers, `.`, `::`, `?`, `&`, balanced (..) and [..]
+      j = k
+      while j > 0:
+        ch = mask[j - 1]
+        if ch in ")]":
+          depth, j2 = 0, j - 1
+          while j2 >= 0:
+            if mask[j2] in ")]":
+              depth += 1
+            elif mask[j2] in "([":
+              depth -= 1
+              if depth == 0:
+                break
+            j2 -= 1
+          j = j2
+        elif ch.isalnum() or ch in "_.:?&":
+          j -= 1
+        elif ch in " \n\t" and mask[j:k].lstrip().startswith("."):
+          # method chain broken over lines: `self\n  .core_pipe_manager\n  .recv()`
+          j = len(mask[:j].rstrip())
+        else:
+          break
+      start = j
+      while start < k and mask[start] in " \n\t":
+        start += 1
+      n_aw += 1
+      txt = "".join("assert(%s); " % (c if isinstance(c, str) else c[1]) for c in f.await_inv)
+      t = gen.tag({"kind": "hint", "fn": qual, "name": "%s.%s" % (qual, f.await_inv[0][0]), "text": " ".join(txt.split())})
+      add_op(start, start, "{ proof { %s} " % txt, t)
+      add_op(am.end(), am.end(), " }", body.o[k])
+    if n_aw:
+      gen.obligations.append({"name": "%s.%s" % (qual, f.await_inv[0][0]), "fn": qual, "kind": "hint", "text": "at each of the %d await points: %s" % (n_aw, "; ".join(c[1] for c in f.await_inv))})
+    gen.drops.append({"rule": "R11", "at": "%s:%d" % (where, sigline), "what": "%d await points of %s wrapped with the await-point assertion" % (n_aw, qual)})
   # ---- structural hints: @fn_start, @loop_start:N, @loop_end:N (robust against edits of statement text)
   text_hints = []
   for h in f.hints:
